@@ -28,10 +28,13 @@ import (
 	"crypto/sha512"
 	"crypto/x509"
 	"crypto/x509/pkix"
+	"database/sql"
+	"database/sql/driver"
 	"encoding/asn1"
 	"encoding/base64"
 	"encoding/binary"
 	"encoding/json"
+	"errors"
 	"fmt"
 	"io"
 	"math/big"
@@ -40,10 +43,12 @@ import (
 	"net/http/httptest"
 	"net/url"
 	"os"
+	"path/filepath"
 	"regexp"
 	"strconv"
 	"strings"
 	"sync"
+	"sync/atomic"
 	"testing"
 	"time"
 
@@ -54,6 +59,7 @@ import (
 	"github.com/Cloud-Foundations/keymaster/lib/vip"
 	"github.com/Cloud-Foundations/keymaster/lib/webapi/v0/proto"
 	"github.com/duo-labs/webauthn/webauthn"
+	sqlite3 "github.com/mattn/go-sqlite3"
 	"github.com/pquerna/otp/totp"
 	"github.com/tstranex/u2f"
 	"golang.org/x/crypto/bcrypt"
@@ -346,6 +352,7 @@ func c05BootValue(uid int) string { return fmt.Sprintf("bootstrap-otp-of-%s", c0
 
 func c05Setup(t *testing.T) (*c05World, func()) {
 	state, cleanup := vfNewState(t)
+	c05FaultDB(t, state)
 	w := &c05World{t: t, state: state, vip: &c05VIP{}, okta: &c05Okta{}}
 	// password backend with two users
 	f, err := os.CreateTemp("", "vfc05pw")
@@ -432,6 +439,8 @@ func c05Setup(t *testing.T) (*c05World, func()) {
 }
 
 func (w *c05World) reset(f0, b0, f1, b1 int, oktaMode bool) {
+	atomic.StoreInt32(&c05FailSave, 0)
+	atomic.StoreInt32(&c05FailLoad, 0)
 	st := w.state
 	st.Mutex.Lock()
 	st.vipPushCookie = make(map[string]pushPollTransaction)
@@ -490,7 +499,9 @@ func (w *c05World) reset(f0, b0, f1, b1 int, oktaMode bool) {
 var c05OktaURL string
 
 // tick: 30 s pass.
-func (w *c05World) tick() {
+func (w *c05World) tick() { c05NoFaults(w.tick0) }
+
+func (w *c05World) tick0() {
 	const d = 30 * time.Second
 	st := w.state
 	st.Mutex.Lock()
@@ -596,21 +607,95 @@ func (w *c05World) avoidCollision(code string, owner int, d int) string {
 
 func (w *c05World) realStepNow() int64 { return time.Now().Unix() / 30 }
 
-// attach adds the referenced session cookie: "<uid>:<level>" = the most recent cookie the
-// server issued with that subject and level (nothing if there is none), "-" none, "x" garbage.
-func (w *c05World) attach(req *http.Request, ref string) {
-	switch ref {
-	case "-":
-	case "x":
-		req.AddCookie(&http.Cookie{Name: authCookieName, Value: "eyJhbGciOiJSUzI1NiJ9.e30.AAAA"})
-	default:
+// attach adds the referenced session cookies IN ORDER: refs joined by "+", each "<uid>:<level>" = the
+// most recent cookie the server issued with that subject and level (a value that does not verify
+// if there is none) or "x" = garbage; "-" = none at all. A request may carry several cookies named auth_cookie.
+func (w *c05World) attach(req *http.Request, refs string) {
+	if refs == "-" {
+		return
+	}
+	const garbage = "eyJhbGciOiJSUzI1NiJ9.e30.AAAA"
+	for _, ref := range strings.Split(refs, "+") {
+		val := garbage // "x", or a (subject, level) the server never issued: a value that does not verify
 		for i := len(w.jar) - 1; i >= 0; i-- {
 			if fmt.Sprintf("%d:%d", w.jar[i].uid, w.jar[i].level) == ref {
-				req.AddCookie(&http.Cookie{Name: authCookieName, Value: w.jar[i].val})
-				return
+				val = w.jar[i].val
+				break
 			}
 		}
+		req.AddCookie(&http.Cookie{Name: authCookieName, Value: val})
 	}
+}
+
+// ---------------------------------------------------------------- storage faults
+// A wrapping database/sql driver around sqlite3: while a fault is armed, statements of the profile
+// table on the PRIMARY database fail (writes: read-only replica / full disk; reads: primary down).
+
+type c05FaultDriver struct{ inner driver.Driver }
+
+var c05FailSave, c05FailLoad, c05SaveExecs int32
+
+func (d c05FaultDriver) Open(name string) (driver.Conn, error) {
+	c, err := d.inner.Open(name)
+	if err != nil {
+		return nil, err
+	}
+	return &c05FaultConn{c}, nil
+}
+
+type c05FaultConn struct{ driver.Conn }
+
+func (c *c05FaultConn) Prepare(q string) (driver.Stmt, error) {
+	st, err := c.Conn.Prepare(q)
+	if err != nil {
+		return nil, err
+	}
+	return &c05FaultStmt{Stmt: st, kind: vfClassify(q)}, nil
+}
+
+type c05FaultStmt struct {
+	driver.Stmt
+	kind string
+}
+
+func (s *c05FaultStmt) Exec(args []driver.Value) (driver.Result, error) {
+	if s.kind == "save" {
+		defer atomic.AddInt32(&c05SaveExecs, 1)
+		if atomic.LoadInt32(&c05FailSave) != 0 {
+			return nil, errors.New("verif: injected write fault (attempt to write a readonly database)")
+		}
+	}
+	return s.Stmt.Exec(args)
+}
+
+func (s *c05FaultStmt) Query(args []driver.Value) (driver.Rows, error) {
+	if s.kind == "load" && atomic.LoadInt32(&c05FailLoad) != 0 {
+		return nil, errors.New("verif: injected read fault (primary unavailable)")
+	}
+	return s.Stmt.Query(args)
+}
+
+var c05FaultRegisterOnce sync.Once
+
+func c05FaultDB(t *testing.T, state *RuntimeState) {
+	c05FaultRegisterOnce.Do(func() { sql.Register("sqlite3c05", c05FaultDriver{&sqlite3.SQLiteDriver{}}) })
+	path := filepath.Join(state.Config.Base.DataDirectory, profileDBFilename)
+	state.db.Close()
+	db, err := sql.Open("sqlite3c05", path)
+	if err != nil {
+		t.Fatal(err)
+	}
+	state.db = db
+}
+
+// noFaults runs the harness's own bookkeeping on the stored profiles with the faults lifted.
+func c05NoFaults(f func()) {
+	sv, ld := atomic.SwapInt32(&c05FailSave, 0), atomic.SwapInt32(&c05FailLoad, 0)
+	defer func() {
+		atomic.StoreInt32(&c05FailSave, sv)
+		atomic.StoreInt32(&c05FailLoad, ld)
+	}()
+	f()
 }
 
 func (w *c05World) form(path string, ref string, kv ...string) *http.Request {
@@ -847,16 +932,13 @@ func (w *c05World) exec(f []string) (string, []string, []string) {
 		if f[0] == "wafinish" {
 			path, h = webAuthnAuthFinishPath, st.webauthnAuthFinish
 		}
+		execs0 := atomic.LoadInt32(&c05SaveExecs)
 		c, ck, _ := serve(h, w.body(path, f[1], body))
 		if c == "200" && f[0] == "wafinish" && f[3] == "u" && ok {
-			// webauthnAuthFinish saves the profile (new signature counter) in a goroutine: wait for it,
-			// or a later clock shift of the stored profile could be overwritten by the stale copy
-			want := w.assertCt[f[0]+"/"+f[2]+f[3]+"/"+f[4]]
-			for i := 0; i < 400; i++ {
-				p, _, _, err := st.LoadUserProfile(c05Users[owner])
-				if err == nil && p.U2fAuthData[1] != nil && p.U2fAuthData[1].Counter == want {
-					break
-				}
+			// webauthnAuthFinish saves the profile (new signature counter) in a goroutine: wait until that
+			// write reached the driver (done or refused), or a later clock shift of the stored profile
+			// could be overwritten by the stale copy
+			for i := 0; i < 400 && atomic.LoadInt32(&c05SaveExecs) == execs0; i++ {
 				time.Sleep(time.Millisecond)
 			}
 		}
@@ -930,6 +1012,11 @@ func (w *c05World) exec(f []string) (string, []string, []string) {
 		return "-", nil, nil
 	case f[0] == "sweep" && len(f) == 1:
 		w.sweep()
+		return "-", nil, nil
+	case f[0] == "fault" && len(f) == 3:
+		// fault <save 0|1> <load 0|1>: the primary profile store refuses writes / reads from now on
+		atomic.StoreInt32(&c05FailSave, int32(c05Atoi(f[1])&1))
+		atomic.StoreInt32(&c05FailLoad, int32(c05Atoi(f[2])&1))
 		return "-", nil, nil
 	}
 	return "bad-op", nil, nil
